@@ -36,7 +36,7 @@ def make(name, **kw):
     else:
         base = dict(n_clusters=3, max_iter=3, learning_rate=0.1, random_state=0)
         if name in HAS_HIDDEN:
-            base["n_hidden_dim"] = 3
+            base["n_hidden_dim"] = 4          # differs from the default n_clusters=3 and from the small d used: no accidental square shapes
         if name == "Douglas":
             base["n_cuts"] = 1
     base.update(kw)
